@@ -125,3 +125,22 @@ SPECS['C01'] = dict(
     quick=dict(workers=16, cases=2500, size=100, timeout=1200),
     thorough=dict(workers=16, cases=15000, size=100, timeout=7200),
 )
+
+SPECS['C16'] = dict(
+    kind='native', drivers=['p_c16.cpp'], shims=['sut_strm'], with_lib=True,
+    level='exploration',
+    technique='invariant checking over generated events of the full accepted rule language (rapidcheck), streams followed for 3000 pops',
+    level_text=('Events over the whole accepted language (all FREQs and BY parts, unsynchronised DTSTART, SHIFT, BYEASTER, SCALE on rule and DTSTART, TZID, '
+                '1-3 RRULEs, RDATE) are parsed and their stream popped up to 3000 times; order, DTSTART/UNTIL bounds, COUNT bound and sticky end-of-stream '
+                'are asserted. Sampled; needs no reference set, so it also covers the non-RFC extensions.'),
+    level_note='bounds are computed by the driver from the generated model; the UTC image of a TZID DTSTART comes from oracle/tzif_ref.hpp',
+    rule=('case = one VEVENT with 1-3 generated RRULEs (C01 generator plus SHIFT days/business days/B+/B-, BYEASTER lists, SCALE=HIJRI.*), DTSTART as UTC date-time, '
+          'DATE, TZID local time (8 zones) or Hijri DATE, optional RDATE list, UNTIL at an arbitrary later instant or COUNT; invariants: starts strictly increasing, '
+          'none before DTSTART (not asserted for Hijri DTSTART or when an RDATE precedes DTSTART), none after the latest UNTIL (when every rule has one and no RDATE), '
+          'total <= sum of COUNTs + number of RDATEs (when every rule has COUNT). non-trivial = >=65 occurrences popped (>=1 refill) and an extension part, TZID, SCALE or '
+          'time-of-day expansion present; distinct = hash of the calendar text'),
+    assumptions=['nothing is asserted about which dates are produced (C01/C17 do that)',
+                 'the lower bound for a Hijri DTSTART is not asserted (its Gregorian image is C15\'s subject)'],
+    quick=dict(workers=16, cases=300, size=100, timeout=1500),
+    thorough=dict(workers=16, cases=20000, size=100, timeout=7200),
+)
